@@ -6,6 +6,7 @@ CONSTANTS
   MaxUid = 1
   MaxCode = 1
   NFlagSets = 2
+  SyncLit = FALSE
   Kinds = {"SELECT", "EXPUNGE", "UIDEXPUNGE", "MOVE", "COPY", "SORT", "THREAD"}
   Greetings = {"PREAUTH"}
   SimDepth = 0
